@@ -6,11 +6,11 @@ reg(Check(
     assumptions=[
         "sequential families: single goroutine per cache, subscribers observed at quiescence after every call; concurrency is covered by two forced windows only: Cache.Remove between registration and walk of a subscriber, and a second goroutine calling Add/Remove/Reset/GnmiUpdate on the same name while a call is parked at its announce point (inside cache.Now or the feed callback)",
         "one clock reading per API call (cache.Now constant during a call); the clock does not run backwards across Reset / UpdateMetadata",
-        "cache created without latency windows, server name and excluded metadata",
+        "cache options covered: server name (cache.WithServerName), future threshold, excluded metadata, event-driven emulation; latency windows x Reset are covered by C15 (cache-latency family), not here",
         "typed values restricted to string/int/uint/bool/bytes/json/empty",
-        "subscribers: STREAM, updates_only, one subscription covering the whole target, no ACL",
+        "subscribers: STREAM, updates_only (or with the initial walk in the forced-window family), one subscription path per RPC (whole target or a path / origin-less root below it), no ACL",
     ],
-    modelled=["cache/cache.go: Cache.{Add,Remove,Reset,Query,HasTarget,Metadata,GnmiUpdate,Sync,Connect,ConnectError,UpdateMetadata,UpdateSize} via CacheModel.v + MultiCache.v; metadata/metadata.go (Clear, ResetEntry, getters); subscribe/subscribe.go: Subscribe (target lookup, updates_only), Server.Update target matching, sendStreamingResults stream end, isTargetDelete (sequential model in MultiCache.v)"],
+    modelled=["cache/cache.go: Cache.{Add,Remove,Reset,Query,HasTarget,Metadata,GnmiUpdate,Sync,Connect,ConnectError,UpdateMetadata,UpdateSize} via CacheModel.v + MultiCache.v; metadata/metadata.go (Clear, ResetEntry incl. the Keep action of meta/serverName, getters, RegisterServerNameMetadata); subscribe/subscribe.go: Subscribe (target lookup, updates_only), Server.Update target matching, sendStreamingResults stream end, isTargetDelete (sequential model in MultiCache.v)"],
 ),
     level_text="Theorems in coq/Props/C14.v state, over the Gallina model of cache.Cache as a map of per-target states, that Reset leaves no non-metadata leaf, announces a covering delete for every removed leaf and returns the metadata to its initial values, that Remove makes the target unknown and announces one whole-target delete which ends single-target streams with status OK, and that no operation addressed to one target changes the state, query results or metadata of another or announces anything carrying another target - for all histories; the model is tied to cache/cache.go and subscribe/subscribe.go by a correspondence run (all short histories over two targets + seeded random histories over 2..4 targets, with real STREAM subscribers attached at random points) evaluated inside Coq, which also applies the executable specification to the implementation's own observations.",
     level_note="Trusted: Coq kernel + vm_compute, the hand-written model (validated only on the explored cases), the Go harness projection. Sequential; concurrent subscribers inherit C04's granularity.")
